@@ -230,6 +230,9 @@ class InventoryFileReader:
                 yield buf[:pos].decode()
                 buf = buf[pos + 1 :]
                 pos = buf.find(b"\n")
+        if buf:
+            # the last line may not be newline terminated
+            yield buf.decode()
 
 
 @functools.lru_cache(maxsize=256)
